@@ -378,6 +378,57 @@ func VxC14_LogBinToValue() {
 	vx.Assert(vx.Close(h.BinToValue(2*m), float64(base*base), 1e-12, 0), "LogHist.BinToValue(2m) is the base squared")
 }
 
+// VxC14_LogEdges: a positive value lands in the LogHist bin whose stated edges contain it - below
+// the first edge in the under-flow, at or above the last in the over-flow - for any real x
+// (math.Log read as a strictly increasing function anchored at the edges; floor as an integer witness).
+// C14: "a value x lands in bin i exactly when BinToValue(i)<=x<BinToValue(i+1), in the under count when it is below the first
+// bin and in the over count when it is at or above the end of the last bin (values within rounding distance of an edge may fall on either side)".
+//
+//vx:mode R
+//vx:solver z3
+//vx:timeout 60000
+//vx:maxdec 100000
+//vx:bound base in {2,10}, m in {1,2} bins per power, max = 1000 (10 or 20 bins for base 2; 3 or 6 for base 10); any real 1e-3 <= x <= 1e4; the bin index is case-split
+//vx:assume math.Log is strictly increasing; math.Log of a constant is the native value
+//vx:outside values within 1e-9 (relative) of an edge; accuracy of math.Log and math.Pow
+func VxC14_LogEdges() {
+	base := []int{2, 10}[vx.Choose("base", 0, 1)]
+	m := []float64{1, 2}[vx.Choose("m", 0, 1)]
+	h := NewLogHist(base, m, 1000)
+	nb := len(h.bins)
+	x := vx.Float("x")
+	vx.Assume(vx.And(x >= 1e-3, x <= 1e4))
+	lx := math.Log(x)
+	vx.Assume(vx.And(lx >= math.Log(1e-3), lx <= math.Log(1e4)))
+	// anchor the logarithm just inside and just outside every edge in reach
+	lower := func(i int) float64 { return h.BinToValue(float64(i)) * (1 - 1e-9) }
+	upper := func(i int) float64 { return h.BinToValue(float64(i)) * (1 + 1e-9) }
+	for i := -int(10 * m); i <= nb+int(4*m); i++ {
+		for _, e := range []float64{lower(i), upper(i)} {
+			le := math.Log(e)
+			vx.Assume(vx.And(vx.Implies(x < e, lx < le), vx.Implies(x > e, lx > le)))
+			vx.Assume(vx.Implies(x == e, lx == le))
+		}
+	}
+	bin := vx.Concretize(h.bin(x))
+	h.Add(x)
+	switch {
+	case bin < 0:
+		vx.Cover("under")
+		vx.Assert(h.low == 1 && h.high == 0, "a value with a negative bin index is counted as under-flow")
+		vx.Assert(x < upper(0), "under-flow only for values below the first edge")
+	case bin >= nb:
+		vx.Cover("over")
+		vx.Assert(h.high == 1 && h.low == 0, "a value beyond the last bin is counted as over-flow")
+		vx.Assert(x > lower(nb), "over-flow only for values at or above the last edge")
+	default:
+		vx.Cover("binned")
+		vx.Assert(h.bins[bin] == 1 && h.low == 0 && h.high == 0, "exactly the indexed counter is incremented")
+		vx.Assert(x > lower(bin), "a binned value is not below its bin's lower edge")
+		vx.Assert(x < upper(bin+1), "a binned value is below its bin's upper edge")
+	}
+}
+
 // VxC14_LogSpecialValues: zero, negative, NaN, infinite, tiny and huge values are counted exactly
 // once by LogHist too (concrete x through the real bin(); counters symbolic), and non-positive
 // values - which lie below every bin - go to the under-flow counter.
